@@ -558,7 +558,7 @@ func c51Worker(w *WorkerCtx) {
 			v := Violation{Property: "C51", Oracle: "model." + tr.Kind, Key: "model:" + tr.Kind, Detail: fmt.Sprintf("%s, seed %d, %d operations: %s", tr.Kind, tr.Seed, tr.Ops, fail)}
 			cu, _ := json.Marshal(tr)
 			rf := &ReplayFile{Property: "C51", Oracle: v.Oracle, VerifSeed: int64(w.Seed), Tier: w.Tier, Minimised: true, Kind: "c51", Custom: cu, Violation: &v}
-			res.Replay = WriteReplay(filepath.Join(verifDir(), "replay"), rf, fmt.Sprintf("%s-%d", tr.Kind, seed))
+			res.Replay = WriteReplay(filepath.Join(outDir(), "replay"), rf, fmt.Sprintf("%s-%d", tr.Kind, seed))
 			res.Violations = []Violation{v}
 			w.Emit(res)
 			return
